@@ -230,3 +230,63 @@ func VerifH_C03_dies_in_handshake() {
 		}
 	})
 }
+
+// VerifH_C03_upgrade_while_closing: a graceful Close with data still buffered (state
+// 'closing', waiting for the drain) and then the client completes a transport upgrade: the
+// buffered data goes out on the new transport, the session closes exactly once, and nothing
+// -- in particular no 'upgrade' event -- is emitted after the close event; the ready state
+// seen by the listeners only moves forward.
+func VerifH_C03_upgrade_while_closing() {
+	verif.RunTimed(func() {
+		w := newUpWorld()
+		var names []string
+		var ranks []int
+		for _, n := range lifeEvents {
+			n := n
+			w.sock.On(types.EventName(n), func(...any) {
+				names = append(names, n)
+				ranks = append(ranks, stateRank(w.sock.ReadyState()))
+			})
+		}
+		cand := w.candidate()
+		w.send(1, false) // goes out on the pending poll
+		w.send(2, false) // buffered: polling is busy
+		before := verif.Bool()
+		if before {
+			w.sock.Close(false)
+			verif.Assert(w.sock.ReadyState() == "closing", "closing, waiting for the buffered data to drain")
+		}
+		w.sock.MaybeUpgrade(cand)
+		cand.OnPacket(probePing())
+		cand.complete()
+		if !before {
+			w.sock.Close(false)
+		}
+		cand.OnPacket(&packet.Packet{Type: packet.UPGRADE, Data: types.NewStringBufferString("")})
+		cand.complete()
+		verif.Settle()
+		nclose, at := 0, -1
+		for i, n := range names {
+			if n == "close" {
+				nclose++
+				if at < 0 {
+					at = i
+				}
+			}
+		}
+		verif.Assert(nclose == 1 && w.sock.ReadyState() == "closed", "the closing session closes exactly once")
+		if at >= 0 {
+			verif.Assert(at == len(names)-1, "nothing is emitted after the close event")
+		}
+		for i := 1; i < len(ranks); i++ {
+			verif.Assert(ranks[i] >= ranks[i-1], "ready state only moves forward")
+		}
+		n := 0
+		for _, p := range append(w.ft.flat(), cand.flat()...) {
+			if p.Type == packet.MESSAGE {
+				n++
+			}
+		}
+		verif.Assert(n == 2, "the data buffered before the graceful close is handed to a transport exactly once")
+	})
+}
